@@ -9,12 +9,14 @@ ALPHA = Alphabet(
     add=[((T0,), "a", "ok"), ((T0, T1), "a", "ok"), ((T1, T0), "a", "badname"), ((T1,), "a", "none")],
     fac=[((T0,), "a", False, "ok"), ((T1, T0), "a", True, "ok"), ((T1,), "a", False, "nonetype")],
     look=[(T0, "a", "nowait"), (T1, "a", "await"), (T0, "a", "inject_async")],
+    drop=True,
 )
 ALPHA_T = Alphabet(
     max_ctx=3,
     add=ALPHA.add + [((T0,), "b", "td"), ((T1, T0), "a", "badcb")],
     fac=ALPHA.fac + [((T0,), "b", False, "ok")],
     look=ALPHA.look + [(T0, "b", "shortcut_nowait")],
+    drop=True,
 )
 
 
@@ -31,7 +33,7 @@ def params(tier):
 def rfn(a, tier):
     alpha, K = cfg(tier)
     ops = decode(a, alpha, K)
-    div, eng = run_history(ops, listen=True, check_events=True)
+    div, eng = run_history(ops, listen="extra", check_events=True)
     summary = {"history": [o.text() for o in ops],
                "events_per_context": {f"c{m.idx}": len(m.events) for m in eng.model}}
     if div is not None:
@@ -50,7 +52,8 @@ R = Harness(
     title="R-history with a stream_events listener on every context",
     bound_text=lambda tier: (
         "histories of 3 ops over <=3 contexts: create_child, add_resource (ok single/multi type, invalid name, None value), "
-        "add_resource_factory (sync single, async multi, None among types), lookups via nowait/await/inject; listeners on all contexts; "
+        "add_resource_factory (sync single, async multi, None among types), lookups via nowait/await/inject; a permanent listener on every context plus a "
+        "short-lived one that a `drop` operation cancels in the middle of its stream; "
         "events compared after every step and after the final generating probes"
         if tier == "quick"
         else "histories of 4 ops, plus a second name, a teardown-callback add, a non-callable teardown callback"
